@@ -73,6 +73,20 @@ def make_programs(rng, nstmts_total, unsupported):
     return progs
 
 
+def directed_programs(rng, unsupported, start_id):
+    """every operation x operand form x child shape x placement (c01gen.directed_templates), 8 statements per program"""
+    ts = G.directed_templates(unsupported)
+    out = []
+    for k in range(0, len(ts), 8):
+        pg = G.ProgGen(rng, True, unsupported)
+        st, done = pg.directed_program(ts[k:k + 8])
+        if done < 1:
+            continue
+        out.append({"id": start_id + len(out), "stmts": st, "gen": pg, "nrec": len([s_ for s_ in st if s_[0] not in ("input", "nr")]),
+                    "unsupported": sorted(G.funcs_used(st) & unsupported), "exact": G.is_exact_program(st), "directed": True})
+    return out
+
+
 REGRESSION = [
     # F-11: noalias nested under a multiplying parent (multiplier overload of NoAlias::calc_gradient_, value_stored_)
     [("input", 0, [3.0, 1.5, -2.0]), ("input", 1, [4.0, 0.5, 2.5]), ("nr",),
@@ -277,6 +291,7 @@ def run(ctx, replay):
             progs = make_programs(ctx.rng, nst, unsupported)
             if k == 0:
                 progs += regression_programs(len(progs))
+                progs += directed_programs(ctx.rng, unsupported, len(progs))
             rounds.append(progs)
 
     ctx.pending, ctx.nbad, ctx.ncorr = [], 0, 0
